@@ -46,6 +46,24 @@ class HeaderAST:
         with cf.ThreadPoolExecutor(max_workers=len(FILTERS)) as ex:
             for flt, out in ex.map(_dump_one, [(self.header, f, tuple(extra)) for f in FILTERS]):
                 self.decls += self._parse(out)
+        # helpers that the loaded functions call but whose names match none of the filters: fetch them by name
+        # (a second, small dump) so that rules can follow a call into a helper defined in the header
+        have = {d.get("name") for d in self.decls}
+        wanted = set()
+        for d in self.decls:
+            for n in walk(d):
+                if n.get("kind") == "DeclRefExpr":
+                    rd = n.get("referencedDecl") or {}
+                    if rd.get("kind") in ("FunctionDecl", "FunctionTemplateDecl") and rd.get("name") and rd["name"] not in have \
+                            and not rd["name"].startswith(("mx", "mex", "operator", "__")):
+                        wanted.add(rd["name"])
+                elif n.get("kind") in ("UnresolvedLookupExpr",) and n.get("name") and n["name"] not in have \
+                        and not n["name"].startswith(("mx", "mex", "operator", "__")):
+                    wanted.add(n["name"])
+        if wanted:
+            with cf.ThreadPoolExecutor(max_workers=min(8, len(wanted))) as ex:
+                for flt, out in ex.map(_dump_one, [(self.header, f, tuple(extra)) for f in sorted(wanted)]):
+                    self.decls += self._parse(out)
         # keep declarations located in matlab.h only; de-duplicate by id
         seen = set()
         uniq = []
@@ -99,6 +117,10 @@ class HeaderAST:
                 seen.add(f["id"])
                 res.append(f)
         return res
+
+    def functions_inlined(self, name: str) -> List[dict]:
+        """functions(name) with calls of header-defined helpers expanded in place (see inline_helpers)."""
+        return [inline_helpers(self, f) for f in self.functions(name)]
 
     def specialisations(self, name: str) -> Dict[str, dict]:
         """explicit specialisations name<T>: canonical T -> FunctionDecl."""
@@ -188,3 +210,148 @@ def line_of(n: dict) -> int:
         if e and "line" in e:
             return e["line"]
     return 0
+
+
+def _deep(n):
+    if isinstance(n, dict):
+        return {k: _deep(v) for k, v in n.items()}
+    if isinstance(n, list):
+        return [_deep(x) for x in n]
+    return n
+
+
+def inline_helpers(h: "HeaderAST", f: dict, depth: int = 2) -> dict:
+    """A copy of function `f` in which every `X = g(a, b)` / `T x = g(a, b)` - g a function defined in the header whose
+    body ends in `return <local or expression>` - is replaced by g's statements (parameters replaced by the arguments,
+    locals renamed apart) followed by `X = <returned expression>`.  For a function template the dependent type `T`
+    written in casts is replaced by the type the call instantiates it with.  Rules written for the straight-line form
+    then also decide the form with an extracted helper."""
+    skip = {"error", "mexErrMsgTxt", "mexErrMsgIdAndTxt", f.get("name")}
+    counter = [0]
+
+    def helper_of(call):
+        nm = callee(call)
+        if not nm or nm in skip or nm.startswith(("mx", "mex", "std", "operator")):
+            return None
+        cands = [g for g in h.functions(nm) if _body(g) is not None]
+        if len(cands) != 1:
+            return None
+        g = cands[0]
+        st = statements(g)
+        if not st or st[-1].get("kind") != "ReturnStmt" or any(x.get("kind") == "ReturnStmt" for s_ in st[:-1] for x in walk(s_)):
+            return None
+        return g
+
+    def instantiate(g, call):
+        counter[0] += 1
+        tag = f"__{g.get('name')}_{counter[0]}"
+        params = [p for p in g.get("inner", []) if p.get("kind") == "ParmVarDecl"]
+        args = call_args(call)
+        if len(params) != len(args):
+            return None
+        amap = {p.get("name"): a for p, a in zip(params, args)}
+        # template parameter T -> instantiated type, read off the callee's function type
+        tmap = {}
+        fn_ref = strip((call.get("inner") or [{}])[0])
+        ftype = ((fn_ref.get("referencedDecl") or {}).get("type") or fn_ref.get("type") or {}).get("qualType", "")
+        if "(" in ftype:
+            inst = [x.strip() for x in ftype[ftype.index("(") + 1: ftype.rindex(")")].split(",")]
+            for p, it in zip(params, inst):
+                pt = (p.get("type") or {}).get("qualType", "")
+                if pt.isidentifier() and pt != it:
+                    tmap[pt] = it
+        locals_ = {v.get("name") for s_ in statements(g) for v in walk(s_) if v.get("kind") == "VarDecl"}
+
+        def rewrite(n):
+            if isinstance(n, list):
+                return [rewrite(x) for x in n]
+            if not isinstance(n, dict):
+                return n
+            if n.get("kind") == "DeclRefExpr":
+                nm = (n.get("referencedDecl") or {}).get("name")
+                if nm in amap:
+                    return _deep(amap[nm])
+                if nm in locals_:
+                    m = _deep(n)
+                    m["referencedDecl"] = dict(m["referencedDecl"], name=nm + tag)
+                    return m
+            m = {k: rewrite(v) for k, v in n.items()}
+            if m.get("kind") == "VarDecl" and m.get("name") in locals_:
+                m["name"] = m["name"] + tag
+            if tmap and isinstance(m.get("type"), dict):
+                for k in ("qualType", "desugaredQualType"):
+                    t = m["type"].get(k)
+                    if isinstance(t, str):
+                        for a, b in tmap.items():
+                            t = " ".join(b if w == a else (b + " *" if w == a + "*" else w) for w in t.replace("*", " *").split())
+                        m["type"] = dict(m["type"], **{k: t})
+            return m
+        body = [rewrite(s_) for s_ in statements(g)]
+        ret = body[-1]
+        return body[:-1], (ret.get("inner") or [None])[0]
+
+    def expand_block(stmts, d):
+        out = []
+        for st in stmts:
+            st2 = st
+            if isinstance(st, dict) and st.get("kind") in ("CompoundStmt",):
+                st2 = dict(st, inner=expand_block(st.get("inner", []), d))
+                out.append(st2)
+                continue
+            if isinstance(st, dict) and st.get("kind") == "IfStmt":
+                inner = list(st.get("inner", []))
+                for k in range(1, len(inner)):
+                    if isinstance(inner[k], dict) and inner[k].get("kind") == "CompoundStmt":
+                        inner[k] = dict(inner[k], inner=expand_block(inner[k].get("inner", []), d))
+                out.append(dict(st, inner=inner))
+                continue
+            target_call = None
+            if isinstance(st, dict) and st.get("kind") == "BinaryOperator" and st.get("opcode") == "=":
+                rhs = strip(st["inner"][1])
+                if rhs.get("kind") == "CallExpr":
+                    target_call = ("assign", rhs)
+            elif isinstance(st, dict) and st.get("kind") == "DeclStmt":
+                vds = [v for v in st.get("inner", []) if v.get("kind") == "VarDecl"]
+                if len(vds) == 1 and vds[0].get("inner") and strip(vds[0]["inner"][-1]).get("kind") == "CallExpr":
+                    target_call = ("decl", strip(vds[0]["inner"][-1]))
+            g = helper_of(target_call[1]) if target_call and d > 0 else None
+            inst = instantiate(g, target_call[1]) if g is not None else None
+            if inst is None or inst[1] is None:
+                out.append(st)
+                continue
+            pre, retexpr = inst
+            rn = ref_name(retexpr) if isinstance(retexpr, dict) else None
+            decl_i = next((k for k, ps in enumerate(pre) if ps.get("kind") == "DeclStmt" and any(
+                v.get("kind") == "VarDecl" and v.get("name") == rn and v.get("inner") for v in ps.get("inner", []))), None)
+            if target_call[0] == "assign" and rn is not None and decl_i is not None and len(pre[decl_i].get("inner", [])) == 1:
+                # the helper returns a local it created: write the caller's target in its place (`input[0] = mxCreate..(..)`)
+                lhs = st["inner"][0]
+                vd = pre[decl_i]["inner"][0]
+
+                def sub(n):
+                    if isinstance(n, list):
+                        return [sub(x) for x in n]
+                    if not isinstance(n, dict):
+                        return n
+                    if n.get("kind") == "DeclRefExpr" and (n.get("referencedDecl") or {}).get("name") == rn:
+                        return _deep(lhs)
+                    return {k: sub(v) for k, v in n.items()}
+                pre2 = pre[:decl_i] + [dict(st, inner=[_deep(lhs), vd["inner"][-1]])] + [sub(x) for x in pre[decl_i + 1:]]
+                out += expand_block(pre2, d - 1)
+                continue
+            out += expand_block(pre, d - 1)
+            if target_call[0] == "assign":
+                out.append(dict(st, inner=[st["inner"][0], retexpr]))
+            else:
+                vd = dict(vds[0], inner=vds[0]["inner"][:-1] + [retexpr])
+                out.append(dict(st, inner=[vd if v is vds[0] else v for v in st["inner"]]))
+        return out
+    f2 = dict(f)
+    new_inner = []
+    for c in f.get("inner", []):
+        if isinstance(c, dict) and c.get("kind") == "CompoundStmt":
+            new_inner.append(dict(c, inner=expand_block(c.get("inner", []), depth)))
+        else:
+            new_inner.append(c)
+    f2["inner"] = new_inner
+    return f2
